@@ -86,8 +86,42 @@ def dynamic_feature_audit(p: Program, modules: Optional[List[str]] = None):
                             )
 
 
+def run_deep(fn, *args):
+    """Run fn in a thread with a large stack: the value graphs of the nested scans are deep and
+    every rule is a recursive walk."""
+    import threading
+
+    box = {}
+
+    def target():
+        try:
+            box["r"] = fn(*args)
+        except BaseException as e:  # noqa
+            box["e"] = e
+
+    old = threading.stack_size()
+    threading.stack_size(512 * 1024 * 1024)
+    try:
+        sys.setrecursionlimit(200000)
+        t = threading.Thread(target=target)
+        t.start()
+        t.join()
+    finally:
+        threading.stack_size(old)
+    if "e" in box:
+        raise box["e"]
+    return box.get("r")
+
+
 def analyse(prop_id: str, repo: str, overlay: Optional[Dict[str, str]] = None,
             tier: str = "quick") -> Report:
+    if sys.getrecursionlimit() < 100000:
+        return run_deep(_analyse, prop_id, repo, overlay, tier)
+    return _analyse(prop_id, repo, overlay, tier)
+
+
+def _analyse(prop_id: str, repo: str, overlay: Optional[Dict[str, str]] = None,
+             tier: str = "quick") -> Report:
     rep = Report(prop_id, tier)
     program = Program(repo, overlay)
     dynamic_feature_audit(program, ["sampling", "propagation", "wavefunctions", "sr",
